@@ -651,7 +651,11 @@ func canonBound(vars []*Term, body *Term, pats [][]*Term) ([]*Term, *Term, [][]*
 	m := map[int]*Term{}
 	nv := make([]*Term, len(vars))
 	for k, v := range vars {
-		nv[k] = TS.mk('b', fmt.Sprintf("q%d_%d", d, k), v.sort, nil, nil, nil)
+		cn := fmt.Sprintf("q%d_%d", d, k)
+		if strings.Contains(v.op, "ref$") {
+			cn = fmt.Sprintf("qref$%d_%d", d, k) // reference-typed variable (see isRefVar)
+		}
+		nv[k] = TS.mk('b', cn, v.sort, nil, nil, nil)
 		if nv[k] != v {
 			m[v.id] = nv[k]
 		}
